@@ -125,6 +125,19 @@ func programs() []program {
 		"fmt.thrift": "struct T { 1: optional string s }\n", "wire.thrift": "struct T { 1: optional i32 s }\n",
 		"strings.thrift": "struct T { 1: optional binary s }\n", "errors.thrift": "enum T { A, B }\n",
 	}})
+	// 2b. includes whose names are bare version elements (v1, v2, v3) below equally named
+	// directories, used only in service signatures or not at all: their imports happen late
+	ps = append(ps, program{Name: "versioned-includes", Root: "root.thrift", Small: true, Files: map[string]string{
+		"root.thrift": "include \"./api/v1.thrift\"\ninclude \"./api/v2.thrift\"\ninclude \"./api/v3.thrift\"\ninclude \"./lib/v1/types.thrift\"\n" +
+			"service S { v1.T a(1: v2.T x) throws (1: v3.X e) }\nstruct Local { 1: optional i32 v }\n",
+		"api/v1.thrift": "struct T { 1: optional string s }\n", "api/v2.thrift": "struct T { 1: optional i32 s }\n", "api/v3.thrift": "exception X { 1: optional string m }\n",
+		"lib/v1/types.thrift": "struct Unused { 1: optional i32 u }\n",
+	}})
+	// 2c. set literals that repeat an item (accepted by the compiler)
+	ps = append(ps, program{Name: "set-literals-with-repeats", Root: "root.thrift", Small: true, Files: map[string]string{
+		"root.thrift": "const set<string> S = [\"a\", \"b\", \"c\", \"a\", \"d\", \"b\"]\nconst set<double> D = [1, 1.0, 2, 3, 2]\nconst set<i32> I = [5, 4, 5, 3, 4, 2]\nconst set<bool> B = [true, false, true]\n" +
+			"struct H { 1: optional set<string> s = [\"x\", \"y\", \"x\", \"z\"]; 2: optional set<i64> (go.type = \"slice\") t = [9, 8, 9, 7] }\nservice Sv { void f(1: set<i32> a = [1, 2, 1, 3]) }\n",
+	}})
 	// 3. constants of container/struct type
 	ps = append(ps, program{Name: "container-constants", Root: "root.thrift", Small: true, Files: map[string]string{
 		"root.thrift": "struct P { 1: optional string a; 2: optional i32 b; 3: optional list<string> c; 4: optional map<string, i32> d; 5: optional set<i32> e }\n" +
